@@ -41,6 +41,8 @@ def run(prog, rep):
     # add_block places the block at the offset of the slot it takes over (the end of the data) and re-points the later slots
     rep.attempt(ct.check_c02, rep)
     rep.attempt(lambda: M.parse_on_enter(ct, rep))
+    # nothing outside the three mutators touches the file: an __exit__ that 'tidies' the file size cuts a file whose table is empty to nothing
+    rep.attempt(M.session_boundary, prog, rep)
     rep.attempt(lambda: M.flush_on_exit(ct, rep))
     # every table entry is exactly ENT bytes only if the comment field is exactly 256 bytes
     from .c13 import string_write_rules
